@@ -307,6 +307,29 @@ def r6_admission(ctx: Context, rule: str = "C15.R6") -> None:
     ctx.check(len(ext) >= 2, rule, "ClockworkScheduler.schedule|cancellations and placements both returned", loc(sc), f"{len(ext)} extends", "results are dropped")
 
 
+def r8_one_scratch_view(ctx: Context) -> None:
+    ctx.rule("C15.R8", "ClockworkScheduler.schedule: priorities, the load/evict phase and the inference phase all work on the one "
+                       "scratch copy of the cluster made at the start of the invocation, so that inference sees the evictions just decided")
+    cls = _cls(ctx, "ClockworkScheduler")
+    fn = method(cls, "schedule")
+    scratch = [a.targets[0].id for a in ast.walk(fn) if isinstance(a, ast.Assign) and isinstance(a.targets[0], ast.Name)
+               and isinstance(a.value, ast.Call) and call_name(a.value) in ("copy", "deepcopy")]
+    ctx.floor("C15.R8", "scratch copy of the cluster in ClockworkScheduler.schedule", len(scratch), 1)
+    n = 0
+    for c in calls_in(fn):
+        if call_name(c) in ("run_load", "run_inference", "refresh_priorities") and is_self_attr(c.func if call_name(c) != "refresh_priorities" else c.func.value):
+            wp = next((k.value for k in c.keywords if k.arg == "worker_pools"), None)
+            if wp is None:
+                continue
+            n += 1
+            ctx.check(isinstance(wp, ast.Name) and wp.id == scratch[0], "C15.R8", f"ClockworkScheduler.schedule|{call_name(c)} on the invocation's scratch cluster", loc(c),
+                      f"worker_pools={scratch[0]}",
+                      f"`{call_name(c)}` is given `{norm(wp)[:40]}` instead of the invocation's scratch copy `{scratch[0]}`: the phases no longer share "
+                      "one view (evictions decided by the load phase are invisible to inference, which then batches on a worker whose model "
+                      "was just evicted; or the live cluster is changed)")
+    ctx.floor("C15.R8", "phases given a cluster view", n, 3)
+
+
 def run(ctx: Context) -> None:
     ctx.isolate(r1_one_model_per_queue)
     ctx.isolate(r2_full_batches)
@@ -314,5 +337,8 @@ def run(ctx: Context) -> None:
     ctx.isolate(r4_loaded_and_fitting)
     ctx.isolate(r5_on_time)
     ctx.isolate(r6_admission)
+    ctx.isolate(r8_one_scratch_view)
     from . import c04
     ctx.isolate(c04.r4_r5_copies, rule4="C15.R4c", rule5="C15.R4d")
+    from . import c16
+    ctx.isolate(c16.r6_no_raw_time_numbers, rule="C15.R7", files=("workload/strategy.py", "workload/tasks.py", "workload/profile.py", "schedulers/clockwork_scheduler.py", "workers/"), floor=10)
